@@ -76,10 +76,22 @@ def extra(report, env):
             if code is not None:
                 want = {'#NULL!': 1, '#DIV/0!': 2, '#VALUE!': 3, '#REF!': 4, '#NAME?': 5, '#NUM!': 6, '#N/A': 7, '#GETTING_DATA': 8}[code]
                 chk('ERROR.TYPE(%s)' % s, lambda r, w=want: r['result'] == w, 'ERROR.TYPE numbering')
+    # values that are NOT errors, however unusual: IFERROR / IFNA hand them through, the predicates say FALSE, ERROR.TYPE says #N/A
+    import math as _m
+    not_errors = [0, 0.0, -0.0, '', ' ', False, True, None, 'text', '#N/A', '#DIV/0!', '#ERROR!', float('inf'), float('-inf'), float('nan'), 1e308, -1e308, [1, 2], [], 10 ** 400]
+    for i, v in enumerate(not_errors):
+        p.set_variable('nv', v)
+        same = (lambda r, _v=v: r['error'] is None and (r['result'] is _v or (r['result'] == _v and type(r['result']) is type(_v)) or
+                                                         (isinstance(_v, float) and _m.isnan(_v) and isinstance(r['result'], float) and _m.isnan(r['result']))))
+        chk('IFERROR(nv,7)', same, 'IFERROR(x,y) = x exactly when x is not an error (x = %r)' % (v,))
+        chk('IFNA(nv,7)', same, 'IFNA(x,y) = x when x is not #N/A (x = %r)' % (v,))
+        for fn in ('ISERROR', 'ISERR', 'ISNA'):
+            chk('%s(nv)' % fn, lambda r: r['result'] is False and r['error'] is None, '%s is FALSE on a value that is not an error (%r)' % (fn, v))
+    chk('IFERROR(10^308*10.5,0)', lambda r: r['error'] is None and r['result'] == float('inf'), 'an overflowed product is a number, not an error value')
     chk('IFERROR(5,7)', lambda r: r['result'] == 5, 'IFERROR(x,y) = x when x is not an error')
     chk('IFNA(NA(),7)', lambda r: r['result'] == 7, 'IFNA')
     chk('IFNA(1/0,7)', lambda r: r['error'] == '#DIV/0!', 'IFNA passes other errors')
-    bounded(report, 'C08.error-trees', '20 error sources (literals, operators, functions returning / raising error values, calls failing with 6 other exception classes) x 11 operators x 6 positions (scalar, array literal, array variable and range on the other side), traps', cases, fails)
+    bounded(report, 'C08.error-trees', '20 error sources (literals, operators, functions returning / raising error values, calls failing with 6 other exception classes) x 11 operators x 6 positions (scalar, array literal, array variable and range on the other side), traps, 20 values that are not errors (non-finite floats, text spelling a code, arrays ...) through IFERROR / IFNA / ISERROR / ISERR / ISNA', cases, fails)
 
 
 def replay(rp):
